@@ -131,6 +131,82 @@ Proof.
 Qed.
 Print Assumptions C13_all.
 
+(* ---- round 2: transport faults during the ticks, and the sweep of the expiry caches ---- *)
+
+(* pending confirmables under transport faults, every write-outcome function [w] ("the write of the
+   retransmitted copy of entry id fails"): the table after the tick is the table of a tick with a
+   working transport -- a failed write is reported, it is not taken back from the retransmission
+   count -- and the copies on the wire are exactly the retransmissions whose write succeeded *)
+Theorem C13_tick_ignores_write_errors : forall c w l,
+  tick_w_tbl c w l = fst (R.tick_all c l) /\
+  snd (fst (tick_all_w c w l)) = filter (wire_ok w) (snd (R.tick_all c l)) /\
+  snd (tick_all_w c w l) = blen (filter (fun e => negb (wire_ok w e)) (snd (R.tick_all c l))).
+Proof. intros c w l. split; [apply tick_all_w_tbl|apply tick_all_w_wire]. Qed.
+Print Assumptions C13_tick_ignores_write_errors.
+
+(* ... hence for EVERY fault sequence [ws] (one write-outcome function per tick) the entries without
+   caller and deadline (AsyncPing) are gone after MAX_RETRANSMIT+1 ticks once
+   ACK_TIMEOUT*(MAX_RETRANSMIT+1) has passed *)
+Theorem C13_pending_exhausts_faults : forall c ws l, 0 <= R.ack_ms c -> 0 <= R.max_rt c ->
+  length ws = S (Z.to_nat (R.max_rt c)) ->
+  Forall (fun p => 0 <= R.p_count p /\ R.ack_ms c * (R.max_rt c + 1) < R.p_elapsed p) l ->
+  ticks_w c ws l = [].
+Proof. exact pending_exhausts_faults. Qed.
+Print Assumptions C13_pending_exhausts_faults.
+
+From GoCoap Require Conn.Sweep.
+Module SW := GoCoap.Conn.Sweep.
+
+(* pkg/cache Cache.CheckExpirations (response cache and both block-wise caches), one undisturbed
+   pass over a map of ANY size in ANY iteration order that reaches every key: exactly the entries
+   whose deadline has not passed are left -- no expired entry survives the tick, however many
+   expire at once; if all have expired the cache is empty; onExpire runs once per removed entry *)
+Theorem C13_cache_sweep : forall now ord m, NoDup (SW.keys m) -> incl (SW.keys m) ord ->
+  let r := SW.check_expirations now ord m in
+  fst r = filter (SW.unexpired now) m /\
+  (forall k e, In (k, e) (fst r) -> SW.is_expired now e = false) /\
+  ((forall k e, In (k, e) m -> SW.is_expired now e = true) -> fst r = []) /\
+  (length (snd r) + length (fst r) = length m)%nat.
+Proof.
+  intros now ord m ND Hc r. split; [apply SW.pass_complete; assumption|].
+  split; [intros k e; apply SW.pass_leaves_no_expired; assumption|].
+  split; [apply SW.pass_all_expired_empties; assumption|apply SW.pass_fires_once_per_removed; assumption].
+Qed.
+Print Assumptions C13_cache_sweep.
+
+(* ... and every schedule of a pass interleaved with other goroutines (Range unlocks the map around
+   the callback): once Range has produced key k and nobody stores under k from that read on, k
+   holds no expired element when the pass ends *)
+Theorem C13_cache_sweep_interleaved : forall now pre k mid post m,
+  Forall (SW.no_put k) mid -> Forall (SW.item_no_put k) post ->
+  SW.clean now k (fst (SW.run now (pre ++ SW.Visit k mid :: post) m)).
+Proof. exact SW.pass_interleaved. Qed.
+Print Assumptions C13_cache_sweep_interleaved.
+
+(* composition under transport faults: as C13_all, the MAX_RETRANSMIT+1 closing ticks each with an
+   arbitrary transport state (down = every write of a retransmitted copy fails) *)
+Theorem C13_all_faults : forall c lt le evs d ws, 0 <= R.ack_ms c -> 0 <= R.max_rt c -> Forall ev_ok evs ->
+  let s := Model.run c (Model.init lt le) evs in
+  calls_done s -> D.LIFETIME < d -> R.ack_ms c * (R.max_rt c + 1) < d ->
+  length ws = S (Z.to_nat (R.max_rt c)) ->
+  sizes (closing_w c d ws s) = [0; 0; 0; 0; 0; 0; 0; 0; 0; 0; blen (live s)].
+Proof.
+  intros c lt le evs d ws Hack Hmr Hev s Hdone Hd1 Hd2 Hl. rewrite closing_w_closing by exact Hl.
+  exact (proj1 (C13_all c lt le evs d Hack Hmr Hev Hdone Hd1 Hd2)).
+Qed.
+Print Assumptions C13_all_faults.
+
+(* non-trivial instances: a lost ping whose retransmissions cannot be written, and a cache of 40
+   entries of which 35 expire in the same tick (keys visited in descending order) *)
+Example C13_faults_instance :
+  let c := {| R.ack_ms := 140000; R.max_rt := 2; R.nstart := 16 |} in
+  let s := Model.run c (Model.init 0 1) [PingStart 1; AgeAll 300000; TickAllW true; AgeAll 300000; TickAllW true] in
+  sizes s = [0; 1; 0; 0; 0; 0; 0; 0; 0; 0; 0] /\
+  sizes (Model.step c s (TickAllW true)) = [0; 0; 0; 0; 0; 0; 0; 0; 0; 0; 0] /\
+  (let m := map (fun k => (k, SW.mkE (if k <? 5 then None else Some (k * 10)) k)) (map Z.of_nat (seq 0 40)) in
+   SW.keys (fst (SW.check_expirations 1000 (rev (SW.keys m)) m)) = [0; 1; 2; 3; 4]).
+Proof. vm_compute. repeat split; reflexivity. Qed.
+
 (* the hypotheses are satisfiable by a non-trivial history: a request that is registered,
    transmitted, acknowledged and then cancelled, a datagram handled under the per-ID lock and
    cached, a live observation and a lost ping; all calls returned *)
